@@ -83,7 +83,7 @@ PROPERTIES = {
         "min_obligations": 600,
     },
     "C10": {
-        "contracts": [reshape.Transpose, reshape.SwapAxes, reshape.RollAxis, reshape.NewAxis, reshape.Squeeze, reshape.Repeat],
+        "contracts": [reshape.Transpose, reshape.SwapAxes, reshape.RollAxis, reshape.NewAxis, reshape.Squeeze, reshape.Repeat, reshape.Broadcast, reshape.BroadcastArrays],
         "level": "proof",
         "min_obligations": 1200,
     },
